@@ -184,7 +184,10 @@ def run_case(c, inputs: dict, call=None, extra_ns=None) -> NativeResult:
     when_vals = [bool(eval(w[0], ns)) if w is not None else None for _, w, _ in rs_compiled]
     if call is None:
         _, fn = resolve_function(c.file, c.func)
+        import inspect as _inspect
         names = [n for n, _ in c.params]
+        if names and names[0] == "cls" and _inspect.ismethod(fn):
+            names = names[1:]  # classmethods are already bound to their class
         def call(inp):
             return fn(**{n: inp[n] for n in names}) if getattr(c, "call_by_keyword", False) else fn(*[inp[n] for n in names])
     try:
